@@ -1,7 +1,7 @@
 """Adapters for the independent ELF readers of the sandbox: llvm-readobj (JSON + LLVM-style relocation dump), GNU readelf, GNU objdump -s.
 
-Every adapter takes a list of file paths (one process per batch; a batch that produces any diagnostics is re-run file by file so that
-messages are attributed exactly) and returns {path: view}.  A view is plain data:
+Every adapter takes a list of file paths (one process per batch; diagnostics are attributed to their file, see each adapter) and returns
+{path: view}.  A view is plain data:
 
     {"ok": bool,               # the reader accepted the file without any warning / error
      "diag": str,              # its diagnostics (stderr), empty when ok
@@ -124,33 +124,56 @@ def _parse_llvm_relocs(text):
 
 
 def llvm_readobj(paths):
-    def one(ps, batch):
-        rc, out, err = _run(["llvm-readobj", "--elf-output-style=JSON", "--file-headers", "--sections", "--symbols", "--program-headers"] + ps)
-        rc2, out2, err2 = _run(["llvm-readobj", "-r", "--expand-relocs"] + ps)
-        if batch and (rc or rc2 or err.strip() or err2.strip()):
-            return None
-        res = {}
+    """Batches; a diagnostic names its file ('path'), a fatal one also stops the run: the named files are marked rejected and the rest is run again."""
+    paths = list(paths)
+    res = {}
+    live = list(paths)
+    for _ in range(len(paths) + 2):
+        if not live:
+            break
+        rc, out, err = _run(["llvm-readobj", "--elf-output-style=JSON", "--file-headers", "--sections", "--symbols", "--program-headers"] + live)
+        rc2, out2, err2 = _run(["llvm-readobj", "-r", "--expand-relocs"] + live)
+        named = {}
+        for line in (err + "\n" + err2).splitlines():
+            if not line.strip():
+                continue
+            hit = [p for p in live if "'%s'" % p in line]
+            for p in hit:
+                named.setdefault(p, []).append(line.strip())
+            if not hit:
+                named.setdefault(None, []).append(line.strip())
         views = {}
         try:
             for item in json.loads(out):
                 for name, d in item.items():
                     views[name] = _llvm_json_view(d)
-        except (ValueError, KeyError, TypeError) as e:
-            if batch:
-                return None
-            views = {}
-            err = (err + "\n[JSON output unusable: %r]" % (e,)).strip()
-        rels = _parse_llvm_relocs(out2) if not rc2 else {}
-        for p in ps:
-            v = views.get(p)
-            if v is None or rc or rc2 or err.strip() or err2.strip():
-                v = v or {}
-                v["ok"] = False
-                v["diag"] = (err.strip() + "\n" + err2.strip()).strip() or "llvm-readobj exit status %d/%d" % (rc, rc2)
-            v["relocs"] = rels.get(p, [])
-            res[p] = v
-        return res
-    return _batched(paths, one)
+        except (ValueError, KeyError, TypeError):
+            views = None
+        rels = _parse_llvm_relocs(out2) if not rc2 else None
+        if not named and not rc and not rc2 and views is not None and rels is not None:
+            for p in live:
+                v = views.get(p) or {"ok": False, "diag": "no output for this file"}
+                v["relocs"] = rels.get(p, [])
+                res[p] = v
+            live = []
+            break
+        culprits = [p for p in named if p is not None]
+        if not culprits:
+            if len(live) == 1:
+                res[live[0]] = {"ok": False, "diag": "\n".join(named.get(None, [])) or "llvm-readobj exit status %d/%d, output unusable" % (rc, rc2)}
+                live = []
+                break
+            # cannot attribute: one file at a time
+            for p in live:
+                res.update(llvm_readobj([p]))
+            live = []
+            break
+        for p in culprits:
+            res[p] = {"ok": False, "diag": "\n".join(named[p])}
+        live = [p for p in live if p not in culprits]
+    for p in live:
+        res[p] = {"ok": False, "diag": "llvm-readobj: could not be run to completion"}
+    return res
 
 
 # ------------------------------------------------------------------ GNU readelf
@@ -256,33 +279,39 @@ def _parse_readelf(text):
 
 
 def readelf(paths):
-    def one(ps, batch):
-        rc, out, err = _run(["readelf", "-hSsrlW"] + ps)
-        if batch and (rc or err.strip()):
-            return None
-        chunks = {}
-        if len(ps) == 1:
-            chunks[ps[0]] = out
-        else:
-            cur = None
-            for line in out.splitlines(True):
-                if line.startswith("File: "):
-                    cur = line[6:].strip()
-                    chunks[cur] = ""
-                elif cur is not None:
-                    chunks[cur] += line
-        res = {}
-        for p in ps:
-            try:
-                v = _parse_readelf(chunks.get(p, ""))
-            except Exception as e:  # noqa  (text of a corrupt file)
-                v = {"ok": False, "diag": "unparsable readelf output: %r" % (e,)}
-            if rc or err.strip():
-                v["ok"] = False
-                v["diag"] = err.strip() or "readelf exit status %d" % rc
-            res[p] = v
-        return res
-    return _batched(paths, one)
+    """One process for all files: readelf flushes stdout before it writes a diagnostic, so with stderr merged into stdout every
+    `readelf: Warning/Error` line lands inside the chunk of the file it is about (chunks start with `File: <path>`; readelf prints that
+    header only when given more than one file, so a single path is passed twice)."""
+    paths = list(paths)
+    if not paths:
+        return {}
+    ps = paths if len(paths) > 1 else paths * 2
+    r = subprocess.run(["readelf", "-hSsrlW"] + ps, stdout=subprocess.PIPE, stderr=subprocess.STDOUT, text=True, errors="replace")
+    chunks = {}
+    cur = None
+    stray = []
+    for line in r.stdout.splitlines(True):
+        if line.startswith("File: "):
+            cur = line[6:].strip()
+            chunks[cur] = [[], []]
+        elif line.startswith("readelf: "):
+            (chunks[cur][1] if cur is not None else stray).append(line.strip())
+        elif cur is not None:
+            chunks[cur][0].append(line)
+    res = {}
+    for p in paths:
+        text, diags = chunks.get(p, ([], ["no output for this file"]))
+        diags = list(diags) + stray
+        try:
+            v = _parse_readelf("".join(text))
+        except Exception as e:  # noqa  (text of a corrupt file)
+            v = {"ok": False, "diag": ""}
+            diags.append("unparsable readelf output: %r" % (e,))
+        if diags:
+            v["ok"] = False
+            v["diag"] = "\n".join(diags)
+        res[p] = v
+    return res
 
 
 # ------------------------------------------------------------------ GNU objdump -s
